@@ -290,7 +290,13 @@ def run_case(acc, c: dict, monitors: List[Callable], nontrivial: Optional[Callab
         def fresh():  # noqa: F811
             _fresh0()
             d_ = state["d"]
-            state["ex"] = d_.executor()  # constructed BEFORE the setup nodes run ...
+            kw_ = {}
+            if selection and not selection.get("setup"):
+                ids_ = prog.ids()
+                for key_, name_ in (("T", "target_nodes"), ("X", "exclude_nodes"), ("R", "root_nodes")):
+                    if selection.get(key_) is not None:
+                        kw_[name_] = [ids_[i_] for i_ in selection[key_]]
+            state["ex"] = d_.executor(**kw_)  # constructed BEFORE the setup nodes run ...
             r = H.run_controlled(make_op(d_, prog, {"setup": True}), is_async=prog.is_async)  # ... then dag.setup()
             if r.outcome != "return":
                 raise H.HarnessError(f"setup() did not return: {r.outcome} {r.exc!r}")
